@@ -79,6 +79,18 @@ def gen(rng, tier):
         # z = x = y
         yield grp("ref", [zero(0, prec=x.prec, mode=x.mode), x, clone(x)], "%s 0 1 2" % op, 0, "z=x=y")
         yield grp("alias", [clone(x)], "%s 0 0 0" % op, 0, "z=x=y")
+    for _ in range(80 * n):
+        gid += 1
+        op = rng.choice(["Quo", "Quo", "Mul", "Add", "Sub"])
+        x = common.rand_fin(rng, rng.choice([1, 20, 40]), wide=False)
+        y = common.rand_fin(rng, rng.choice([1, 20, 40]), wide=False)
+        p, md = rng.choice([19, 38, 57, 76, 100]), rng.randint(0, 5)
+        w = p // 19 + rng.randint(2, 6)
+        old = lambda: fin(int("".join("%019d" % rng.randrange(B // 10, B) for _ in range(w))), rng.randint(-5, 5), neg=rng.randint(0, 1), prec=19 * w, mode=md)
+        reset = rng.choice(["SetInf 0 0", "SetInf 0 1", "SetInt64 0 0", "SetUint64 0 0"])
+        yield dict(family="stale-then-special-" + op, group="%d-st" % gid, resvar=0, vars=[zero(0, prec=19 * w, mode=md), x, y], ops=[reset, "SetPrec 0 %d" % p, "%s 0 1 2" % op])
+        for _ in range(2):
+            yield dict(family="stale-then-special-" + op, group="%d-st" % gid, resvar=0, vars=[old(), x, y], ops=[reset, "SetPrec 0 %d" % p, "%s 0 1 2" % op])
     # zero / infinite operands: the exact special result (value, sign, accuracy) must not depend on the receiver's history
     for _ in range(80 * n):
         gid += 1
